@@ -61,7 +61,9 @@ SPECS.update({
     "C06": dict(
         harness="ftamper", src=["harness/ftamper.cpp"], plan=tamper_plan("c06"), level="fault_enumeration",
         rule="base files made by the reference AND the same files written by wencry's own encrypt x keys {all 128 single-bit neighbours, all-zero, all-FF, rotated, reversed}; one evaluation = verify + decrypt under the wrong key, for every second key preceded by a verify of the SAME file (same inode) with the right key; "
-             "oracle: both report failure and the output stream holds 0 bytes; distinct = (base file, key class)",
+             "oracle: both report failure and the output stream holds 0 bytes; distinct = (base file, key class); "
+             "plus the real binary with a wrong key while the k-th read(2) of the input fails with EIO, for every k, transient and persistent (strace syscall tampering): never exit 0, no output",
+        post=lambda tier: __import__("vf.cli", fromlist=["c06_cli"]).c06_cli(tier),
         assumptions=ASSUME_FILE),
     "C11": dict(
         harness="ftamper", src=["harness/ftamper.cpp"], plan=tamper_plan("c11"), level="fault_enumeration",
